@@ -283,15 +283,28 @@ def _threading(ctx, P):
 
 def _kernel(ctx, P):
     kfi = P.func("transform:_interp_1d_linear")
+    from ..harness import guvectorize_contract
+
+    lay, probs = guvectorize_contract(kfi)
+    if probs:
+        ctx.report("R08.2", kfi, "guvectorize decoration of the kernel", "; ".join(probs))
+    elif lay != (["n", "n", "m", "", ""], ["m"]):
+        ctx.report("R08.2", kfi, "guvectorize decoration of the kernel", f"core dimensions {lay}: data and coordinate must share one dimension, the levels and the output another, the two flags none")
+    else:
+        ctx.ok("R08.2", "guvectorize decoration of the kernel", "type list first, layout second, one entry per parameter; data/coordinate on n, levels and output on m, scalar flags")
     rev = SliceV(None, None, -1)
     from ..concrete import REPRESENTATIVES, cond_hook
 
     nan = float("nan")
     # theta as one representative per direction (with a missing value at either end): the direction test of the source,
     # however it is spelled, is evaluated on it
-    directions = {"increasing": [nan] + REPRESENTATIVES["increasing"], "decreasing": REPRESENTATIVES["decreasing"] + [nan]}
+    directions = {"increasing": [nan] + REPRESENTATIVES["increasing"], "decreasing": REPRESENTATIVES["decreasing"] + [nan],
+                  # the shortest profiles that have a direction: two valid values (with and without missing ones around them)
+                  "increasing (two valid values)": [nan, 1.0, 2.0, nan], "decreasing (two valid values)": [7.0, 4.0], "decreasing (two valid values, missing one between)": [7.0, nan, 4.0, nan]}
     for mask in (True, False):
       for direction, theta_rep in directions.items():
+        if mask and "two" in direction:
+            continue
         for bypass in (True, False):
             # order types of the level against min/max
             for slot, rank_lev, outside in (("below", 0, True), ("=min", 2, False), ("inside", 4, False), ("=max", 6, False), ("above", 8, True)):
@@ -339,9 +352,9 @@ def _kernel(ctx, P):
                             bad2 = bad2 or "the direction check / flip is executed although bypass_checks is set"
                         if not bypass and not flip_dec:
                             # the direction test was decided on the representative theta: the flip must follow it
-                            if direction == "decreasing" and not (fx and ff):
+                            if direction.startswith("decreasing") and not (fx and ff):
                                 bad2 = bad2 or "theta decreasing along the axis (bypass_checks off): theta and phi must be reversed before np.interp, which needs increasing sample points"
-                            if direction == "increasing" and (fx or ff):
+                            if direction.startswith("increasing") and (fx or ff):
                                 bad2 = bad2 or "theta increasing along the axis: theta/phi are reversed although they are already in the order np.interp needs"
                     sets = [e for e in o.events if e[0] == "setitem" and isinstance(e[1], Obj) and e[1].name == "output"]
                     whole = [e for e in sets if isinstance(e[2], SliceV) and e[2].key() == (None, None, None)]
